@@ -255,9 +255,11 @@ with stmt_s (lf : bool) (fuel : nat) (e : env) (s : pstmt) {struct fuel} : M (op
     end
   end.
 
-Definition resolve_spec_m (lf : bool) (fuel : nat) (ast : past) : M (list stmt) :=
+(* `fx`: which import pass fills the global tables (Resolver.import_pass): the specification of lexical
+   scoping takes the tables of the files as they are after the import pass of the code *)
+Definition resolve_spec_m (lf fx : bool) (fuel : nat) (ast : past) : M (list stmt) :=
   _ <- for_each insert_namespace_and_add_definitions ast ;;
-  _ <- for_each (fun m => resolve_global_variables (m_file m) (m_stmts m)) ast ;;
+  _ <- import_pass fx ast ;;
   out <- seq_with (stmt_s lf fuel) [] (flat_map m_stmts ast) ;;
   start <- lift (fun st => lookup_global st 0 "start") ;;
   match start with
@@ -265,8 +267,8 @@ Definition resolve_spec_m (lf : bool) (fuel : nat) (ast : past) : M (list stmt) 
   | Some _ => ret out
   end.
 
-Definition resolve_spec_fuel (lf : bool) (fuel : nat) (ast : past) : res resolved :=
-  match resolve_spec_m lf fuel ast (init_state ast) with
+Definition resolve_spec_fuel (lf fx : bool) (fuel : nat) (ast : past) : res resolved :=
+  match resolve_spec_m lf fx fuel ast (init_state ast) with
   | Ok (out, st) => Ok (mkResolved (rev (st_vars st)) out)
   | Err e => Err e
   | Panic s => Panic s
@@ -275,6 +277,6 @@ Definition resolve_spec_fuel (lf : bool) (fuel : nat) (ast : past) : res resolve
 
 (* lf = true: the documented scoping; lf = false: the same with the namespace table consulted before
    the scope for the root of `x.f` *)
-Definition resolve_spec_g (lf : bool) (ast : past) : res resolved := resolve_spec_fuel lf (fuel_of ast) ast.
-Definition resolve_spec (ast : past) : res resolved := resolve_spec_g true ast.
-Definition resolve_spec_nsfirst (ast : past) : res resolved := resolve_spec_g false ast.
+Definition resolve_spec_g (lf fx : bool) (ast : past) : res resolved := resolve_spec_fuel lf fx (fuel_of ast) ast.
+Definition resolve_spec (fx : bool) (ast : past) : res resolved := resolve_spec_g true fx ast.
+Definition resolve_spec_nsfirst (fx : bool) (ast : past) : res resolved := resolve_spec_g false fx ast.
